@@ -6,7 +6,7 @@ from typing import Any, Dict, List, Optional, Set, Tuple
 
 from hypothesis import strategies as st
 
-from vlib import responder as rp, sim
+from vlib import responder as rp, sim, wire
 from vlib.core import HarnessError, Violation
 
 ID = 'C07'
@@ -30,7 +30,7 @@ ASSUMPTIONS = [
     'settling bound 20 s (fourth start-up query at +14.12 s answered within 1.2 s)',
     'evaluations counts executed runs (one no-loss run plus its single-drop re-runs per generated scenario)',
 ]
-BUDGET = {'quick': {'examples': 1200}, 'thorough': {'examples': 2500, 'shards': 16}}
+BUDGET = {'quick': {'examples': 1000}, 'thorough': {'examples': 2500, 'shards': 16}}
 TYPES = ['_http._tcp.local.', '_ipp._tcp.local.', '_ssh._tcp.local.']
 SETTLE_S = 20.0
 TIER = {'name': 'quick'}
@@ -123,6 +123,22 @@ def scenario(draw) -> Dict[str, Any]:
         hb = draw(st.integers(0, n_hosts - 1))
         joins[hb] = 'start'
         browsers = browsers[:3] + [{'host': hb, 'types': [services[k]['type']], 'at': t1 + 2400 + draw(st.integers(1200, 8000)), 'qtype': None}]
+        ops = [o for o in ops if not (o['op'] == 'cancel_browser' and o['browser'] >= len(browsers) - 1)]
+    elif draw(st.integers(0, 3)) == 0:
+        # text (or port) flip-flop: changed and changed back 1.6-4 s later; a peer's cache then holds the first record again valid,
+        # and the flushed one for up to 10 s more. A browser started on a long-present host inside that time looks the service up.
+        k = draw(st.integers(0, n_svc - 1))
+        what = draw(st.sampled_from(['text', 'text', 'port']))
+        t_reg = next(o['t'] for o in ops if o['op'] == 'register' and o['svc'] == k)
+        t1 = t_reg + draw(st.integers(3000, 8000))
+        ops = [o for o in ops if not (o.get('svc') == k and o['op'] != 'register')]
+        ops = [o for o in ops if not (o['op'] == 'close_host' and o['t'] < t1 + 15000)]
+        ops.append({'t': t1, 'op': 'update', 'svc': k, 'what': what})
+        t2 = t1 + draw(st.integers(1600, 4000))
+        ops.append({'t': t2, 'op': 'update', 'svc': k, 'what': what + '-back'})
+        hb = draw(st.integers(0, n_hosts - 1))
+        joins[hb] = 'start'
+        browsers = browsers[:3] + [{'host': hb, 'types': [services[k]['type']], 'at': t2 + draw(st.integers(1200, 9000)), 'qtype': None}]
         ops = [o for o in ops if not (o['op'] == 'cancel_browser' and o['browser'] >= len(browsers) - 1)]
     return {'shared': shared, 'host_addrs': host_addrs,'seed': draw(st.integers(0, 10**6)), 'hosts': n_hosts, 'joins': joins, 'max_delay': draw(st.sampled_from([0, 20, 100, 100])),
             'dup_pct': draw(st.sampled_from([0, 0, 20])), 'jitter': draw(st.sampled_from(['seed', 'seed', 'seed', 'ends'])),
@@ -256,7 +272,11 @@ class Run:
                     if k not in infos:
                         continue
                     v = versions[k]
-                    if op['what'] == 'port':
+                    if op['what'] == 'text-back':
+                        v['props'] = s['props']           # back to what was advertised first
+                    elif op['what'] == 'port-back':
+                        v['port'] = s['port']
+                    elif op['what'] == 'port':
                         v['port'] += 100
                     elif op['what'] == 'text' or v.get('shared'):
                         v['props'] = '0162' if v['props'] != '0162' else '0163'
@@ -358,6 +378,48 @@ class Run:
             self.late_events = {bi: list(lst.events) for bi, lst in self.listeners.items()}
 
 
+def rrset_view(run: 'Run', host: str, owner: str, rtype: int) -> List[Tuple[float, float, Tuple]]:
+    """What host `host` may hold for (owner, rtype), judged from the datagrams delivered to it (RFC 6762 s10: every copy
+    (re)starts its lifetime, a goodbye ends it, a copy with the cache-flush bit ends all other records of the set that are older
+    than one second a second later). Returns availability intervals (from, until, rdata identity)."""
+    live: Dict[Tuple, List[float]] = {}          # ident -> [created, expires]
+    out: List[Tuple[float, float, Tuple]] = []
+    owner = owner.lower()
+    last_data, last_t = None, -1e9
+    for dv in run.deliveries:
+        if dv['host'] != host or dv['seq'] < 0:
+            continue
+        e = run.trace_by_seq.get(dv['seq'])
+        if e is None:
+            continue
+        # what the host perceives: a datagram byte-identical to the previous one on its socket less than a second earlier is
+        # discarded unseen (the second and third copy of an announcement, link-layer duplicates) - as in C11/C12, "seen" is the
+        # host's own perception
+        if e['data'] == last_data and dv['t'] - last_t < 1.0:
+            continue
+        last_data, last_t = e['data'], dv['t']
+        m = sim.decode_trace_entry(e)
+        if m is None or not m['flags'] & 0x8000:
+            continue
+        t = dv['t']
+        got = [r for r in m['an'] + m['ar'] if r['type'] == rtype and wire.name_text(r['name']).lower() == owner]
+        for r in got:
+            ident = rp.ident_of_wire_rr(r)
+            if ident in live:
+                c, x = live.pop(ident)
+                out.append((c, min(x, t), ident))
+            if r['ttl'] > 0:
+                live[ident] = [t, t + r['ttl']]
+        if any(r['cls'] & 0x8000 for r in got):
+            present = {rp.ident_of_wire_rr(r) for r in got}
+            for ident, cx in live.items():
+                if ident not in present and t - cx[0] > 1.0:
+                    cx[1] = min(cx[1], t + 1.0)
+    for ident, (c, x) in live.items():
+        out.append((c, x, ident))
+    return out
+
+
 def _all():
     from zeroconf import IPVersion
 
@@ -373,6 +435,7 @@ def execute(case: Dict[str, Any], drop: Optional[Tuple[int, Optional[int]]]):
         run.errors = list(w.errors)
         run.n_datagrams = len(w.net.trace)
         run.deliveries = list(w.net.delivered)
+        run.trace_by_seq = {e['seq']: e for e in w.net.trace}
         # (seq, host, dst, len, t, is non-probe query)
         def is_goodbye(e: Dict[str, Any]) -> bool:
             if len(e['data']) < 12 or not e['data'][2] & 0x80:
@@ -480,9 +543,19 @@ def judge(case: Dict[str, Any], run: Run, label: str) -> None:
                 raise Violation('service-info lookup made from the Added callback resolved other data than advertised',
                                 dict(ld, want_addrs=want_addrs), tag='lookup-wrong-data')
         else:
-            # after an update, records of the previous version that a peer saw less than one second before the new announcement
-            # are deliberately not flushed (RFC 6762 s10.2) and live on for their TTL: the lookup must contain the current data
-            # and nothing that was never advertised
+            # after an update the reader's cache may legitimately still hold a record of a previous version (one it saw less than a
+            # second before the new announcement is not flushed, RFC 6762 s10.2). What it may hold is judged from the datagrams that
+            # were delivered to it: TXT and port must come from a record that was unexpired at some instant of the lookup
+            for rtype, field, pick in ((16, 'text', lambda i: i[2]), (33, 'port', lambda i: i[4])):
+                view = rrset_view(run, lk['host'], lk['name'], rtype)
+                ok_vals = {pick(i) for c_, x_, i in view if c_ <= lk['t_end'] and x_ > lk['t_start']}
+                if ok_vals and f[field] not in ok_vals:
+                    raise Violation(f"service-info lookup made from the Added callback returned a {'TXT' if rtype == 16 else 'port'} that no "
+                                    'unexpired record of the instance carried during the lookup (judged from what was delivered to that host)',
+                                    dict(ld, got=f[field], unexpired=sorted(map(str, ok_vals)),
+                                         delivered=[(rel(c_), rel(x_), str(pick(i))) for c_, x_, i in view][-6:]),
+                                    tag='lookup-stale:' + field)
+            # the lookup must contain the current data and nothing that was never advertised
             all_addrs = {rp.addr_bytes(a).hex() for d in versions for a in d['addrs']}
             if (f['server'] or '').lower() != cur['server'].lower() or f['port'] not in {d['port'] for d in versions} \
                     or f['text'] not in {d['props'] for d in versions} or not set(want_addrs) <= set(f['addrs']) \
